@@ -13,7 +13,8 @@ package c15
 //   - heading texts: unique ones and, in most documents, texts from a pool of two or three titles, so
 //     that the same title recurs at the same level and at other levels, directly after itself, after
 //     body text, with other headings in between, on the same and on later pages;
-//   - paragraphs, lists (model.List: one kind per list, items of depth 0..3), tables (model.Table,
+//   - paragraphs, lists (model.List: one kind per list, items of depth 0..3; a third of the lists start
+//     with a nested item, depth 1..3, as a list does that continues from the page before), tables (model.Table,
 //     any cell content of the direct stream, header cells marked in any pattern), page breaks anywhere;
 //   - Markdown options: offset -2..+7 x max 1..6 enumerated by the case index (the chunk writer is
 //     claimed for max 1..6 only, see props/C15.json), metadata, TOC, chunk separators, page numbers,
@@ -67,6 +68,9 @@ func genRagDoc(r *hx.Rng) Doc {
 		ordered := r.Bool()
 		var items []Item
 		depth := 0
+		if r.Chance(1, 3) { // the list starts with a nested item (a list that continues from the page before)
+			depth = r.Range(1, 3)
+		}
 		for k := r.Range(1, 6); k > 0; k-- {
 			n++
 			items = append(items, Item{Depth: depth, Ordered: ordered, Text: genText(r, "Item", n)})
@@ -244,6 +248,9 @@ func runRagDoc(c *hx.Ctx, idx int) {
 			hs = append(hs, b)
 		}
 		c.Count("ragdoc block " + b.Kind)
+		if b.Kind == "list" && b.Items[0].Depth > 0 {
+			c.Count("ragdoc list first item nested")
+		}
 	}
 	adjacent, apart := false, false
 	for i := range hs {
